@@ -330,15 +330,62 @@ def hunt(built, drv, f, op, enc, ins, lhs, rhs, extra, rnd, timeout, range_goal=
         ok, _ = native_check(built, drv, f, op, inputs)
         if not ok:
             return inputs, "z3-int model (operand fixed, exact products)"
-    # concrete evaluation on boundary values
-    for it in range(400):
+    # concrete evaluation on boundary values, then on limb patterns that make rare carries likely
+    # (limbs drawn from {0, 1, all-ones, all-ones minus a little, 2^63, 2^32 - 1, random})
+    def limb():
+        c = rnd.randrange(8)
+        return [0, 1, (1 << 64) - 1, (1 << 64) - 1 - rnd.getrandbits(8), 1 << 63, (1 << 32) - 1, (1 << 64) - (1 << 32), rnd.getrandbits(64)][c]
+    for it in range(30000):
         inputs = {}
         for name, kind, eb, cnt in d.params:
             if kind == "in":
-                inputs[name] = int_limbs(rnd.choice(vals), cnt, 8 * eb)
+                if it < 400 or eb != 8:
+                    inputs[name] = int_limbs(rnd.choice(vals), cnt, 8 * eb)
+                else:
+                    X = limbs_int([limb() for _ in range(cnt)])
+                    if f.kind != "raw":
+                        X %= q
+                    inputs[name] = int_limbs(X, cnt, 64)
             elif kind == "val":
                 inputs[name] = rnd.choice([0, 1, (1 << (8 * eb)) - 1, rnd.getrandbits(8 * eb)])
         ok, _ = native_check(built, drv, f, op, inputs)
         if not ok:
-            return inputs, "boundary-value replay after failed certificate"
+            return inputs, "boundary-value / limb-pattern replay after failed certificate"
     return None
+
+
+def corpus_op(built, f, op, cfg="default", count=30000):
+    """closed cases for an operation whose symbolic claim has no certificate within budget: limb patterns that make rare
+    carries likely, replayed natively against the big-integer specification (ground facts, not solver coverage)"""
+    rnd = random.Random(SEED * 104729 + zlib.crc32((f.tag + op + cfg + "corpus").encode()))
+    drv = "drv_%s_%s" % (f.tag, op)
+    ob = Obligation("%s:%s.%s:corpus" % (cfg, f.tag, op), "ground", ["%s (via driver %s)" % (f.rust + "::" + op, drv)],
+                    "closed cases: %d operand tuples with limbs from {0, 1, all-ones, near all-ones, 2^63, 2^32 - 1, 2^64 - 2^32, random} and boundary values" % count,
+                    "val(result) == spec(val(a), val(b)) mod q (native run against the big-integer specification)")
+    t0 = time.time()
+    d = built.drivers[drv]
+    q = f.q
+    vals = boundary_values(f, rnd)
+
+    def limb():
+        c = rnd.randrange(8)
+        return [0, 1, (1 << 64) - 1, (1 << 64) - 1 - rnd.getrandbits(8), 1 << 63, (1 << 32) - 1, (1 << 64) - (1 << 32), rnd.getrandbits(64)][c]
+    for it in range(count):
+        inputs = {}
+        for name, kind, eb, cnt in d.params:
+            if kind == "in":
+                if it < 400 or eb != 8:
+                    inputs[name] = int_limbs(rnd.choice(vals), cnt, 8 * eb)
+                else:
+                    X = limbs_int([limb() for _ in range(cnt)])
+                    if f.kind != "raw":
+                        X %= q
+                    inputs[name] = int_limbs(X, cnt, 64)
+            elif kind == "val":
+                inputs[name] = rnd.choice([0, 1, (1 << (8 * eb)) - 1, rnd.getrandbits(8 * eb)])
+        ok, detail = native_check(built, drv, f, op, inputs)
+        if not ok:
+            detail["key"] = "%s.%s" % (f.tag, op)
+            detail["found_by"] = "native replay of closed cases (limb patterns)"
+            return [ob.fail(detail, "native", time.time() - t0, 0)]
+    return [ob.ok("native replay x%d" % count, time.time() - t0, 0, syntactic=True)]
